@@ -269,6 +269,24 @@ func c01Wire(c *fw.Ctx, nClusters int) {
 			gohbase.FlushInterval(time.Duration(r.Intn(2))*time.Millisecond))
 		touched := map[string]bool{}
 		opn := 0
+		// some clusters are warmed with CacheRegions first: every region listed by
+		// the meta range scan [t, t.) is then known - that range also holds the
+		// rows of tables named "t-..." - and none of them may be looked up again
+		if r.Intn(3) == 0 {
+			t := tnames[r.Intn(len(tnames))]
+			var err error
+			if !within(20*time.Second, func() { err = client.CacheRegions([]byte(t)) }) || err != nil {
+				c.Violate(caseID, "wire:cache-regions-failed", fmt.Sprintf("CacheRegions(%q) err=%v on a static fault-free cluster", t, err), descr)
+			}
+			for _, t2 := range tnames {
+				if t2 >= t && t2 < t+"." {
+					for _, rg := range cl.Regions(t2) {
+						touched[string(rg.Name)] = true
+					}
+				}
+			}
+			c.Count("wire_clusters_warmed_with_cache_regions", 1)
+		}
 		probeKey := func(t string) []byte {
 			b := tables[t]
 			switch r.Intn(6) {
@@ -629,7 +647,7 @@ func init() {
 		},
 		Floors: func(tier string) map[string]int64 {
 			return map[string]int64{"cache_lookups_checked": 1000000, "wire_actions_checked": 2000, "wire_meta_lookups": 100,
-				"wire_clusters": 200, "hole_requests": 100, "wire_concurrent_actions_checked": 5000, "lookup_class_key==boundary": 1000, "lookup_class_comma-key": 1000}
+				"wire_clusters": 200, "hole_requests": 100, "wire_clusters_warmed_with_cache_regions": 40, "wire_concurrent_actions_checked": 5000, "lookup_class_key==boundary": 1000, "lookup_class_comma-key": 1000}
 		},
 		Run: func(c *fw.Ctx) {
 			c01Lookup(c)
